@@ -2353,6 +2353,9 @@ Error Assembler::_emit(InstId inst_id, const Operand_& o0, const Operand_& o1, c
 
         uint64_t imm = o1.as<Imm>().value_as<uint64_t>();
 
+        if (imm >= 64)
+          goto InvalidImmediate;
+
         opcode.reset(op_data.opcode);
         if (imm >= 32) {
           if (!x)
